@@ -206,13 +206,31 @@ def run(ctx):
         ctx.violation({'check': 'C14', 'kind': 'handshake_across_reload_fails'}, 'a handshake that was in progress while the pair was rotated and reloaded: %s' % sfail[0], st)
     if st['handshakes_with_mismatching_key'] or st['handshakes_other']:
         ctx.violation({'check': 'C14', 'kind': 'bad_pair_presented_under_stress'}, 'stress: %s' % st, st)
+    # the TLS configuration as the program wires it (defaultTLSConfig + initCertWatcher): every kind of client is shown the pair that is
+    # current - before a rotation, after a rename-over, after an in-place rewrite
+    import wiring
+    wired = []
+    for wout, how in zip(wiring.run_wiring(ctx, wiring.cert_configs()), ('command line', 'environment')):
+        if wout.get('err'):
+            raise vf.Inconclusive('wiring driver: %s' % wout['err'])
+        for pi, ph in enumerate(wout.get('certs') or []):
+            want = ph['want']
+            if ph.get('sni') != want:
+                if pi == 0:
+                    raise vf.Inconclusive('wiring driver: the first handshake is not shown the start-up pair: %s' % ph)
+            for kind, got in sorted(ph.items()):
+                if kind == 'want' or got == want:
+                    continue
+                ctx.violation({'check': 'C14', 'kind': 'stale_or_no_certificate', 'client': kind, 'via': 'real_wiring'},
+                              'real wiring (%s), phase %d (0 = start-up pair, 1 = after rename-over, 2 = after in-place rewrite): a client of kind %s is shown serial %s (-1 = handshake failed), current pair has serial %s' % (how, pi, kind, got, want), wout)
+            wired.append(ph)
     samples = []
     for h in hist[:400:97]:
         samples.append({'layout': h['layout'], 'steps': h['steps'], 'spec_served_after_each_step': expect[h['id']], 'observed': obs[h['id']].get('current'),
                         'fsnotify_events': (obs[h['id']].get('events') or [])[:8]})
     cov = {'traces_validated_against_impl': len(hist) - nerr, 'samples': samples,
            'histories': {'plain': len([h for h in hist if h['layout'] == 'plain']), 'k8s': len([h for h in hist if h['layout'] == 'k8s'])},
-           'first_pass_mismatches_rechecked': len(suspects), 'confirmed_mismatches': confirmed, 'stress': st,
+           'real_wiring_phases (serial shown to each kind of client; want = current pair)': wired, 'first_pass_mismatches_rechecked': len(suspects), 'confirmed_mismatches': confirmed, 'stress': st,
            'model_only': 'the strict reading "the served pair was on disk at one instant" is violated in the model by a torn two-file read inside tls.LoadX509KeyPair '
                          '(cert:=v1, read cert, cert:=garbage, key:=v1, read key); it cannot be forced on the code from outside the standard library and is not asserted',
            'rule': 'histories = random walks over the quiescent-state graph derived from the serialized TLC model (2 files x contents {v0,v1,v2,empty,garbage} x {in-place, rename-over}; '
